@@ -1396,6 +1396,10 @@ func (ls *LState) Get(idx int) LValue {
 		case GlobalsIndex:
 			return ls.G.Global
 		default:
+			if ls.currentFrame == nil {
+				// no function is running, so there is no upvalue: an unacceptable index reads as nil
+				return LNil
+			}
 			fn := ls.currentFrame.Fn
 			index := GlobalsIndex - idx - 1
 			if index < len(fn.Upvalues) {
